@@ -249,6 +249,11 @@ def addTaxScaleGo : Scale → Scale → Scale
 /-- `self.add_tax_scale(tax_scale)` (the receiver after the call) -/
 def addTaxScale (s other : Scale) : Scale := addTaxScaleGo s other
 
+/-- one child of the node: added when it is a marginal-rate scale, skipped (`none`) otherwise -/
+def addChild (acc : Scale) : Option Scale → Scale
+  | some b => addTaxScale acc b
+  | none => acc
+
 /-- `helpers.combine_tax_scales(node, combined)`: children that are not marginal-rate scales
 (`none`) are skipped; an empty node returns `combined` unchanged -/
 def combineTaxScales (children : List (Option Scale)) (combined : Option Scale) : Option Scale :=
@@ -258,9 +263,7 @@ def combineTaxScales (children : List (Option Scale)) (combined : Option Scale) 
     let start := match combined with
       | some c => c
       | none => addBracket [] 0 0
-    some (children.foldl (fun acc c => match c with
-      | some b => addTaxScale acc b
-      | none => acc) start)
+    some (children.foldl addChild start)
 
 /-- the loop of `inverse`; the state is `(previous_rate, theta)` once bound -/
 def inverseGo : Option (Rat × Rat) → Scale → Scale → Except String Scale
